@@ -728,3 +728,20 @@ def compare_plain(a, b):
     if isinstance(a, (list, tuple, np.ndarray)) or isinstance(b, (list, tuple, np.ndarray)):
         return True
     return not (a == b)
+
+
+def compare_plain_dict(a, b):
+    """Structural equality of two implementation values that may contain dicts (True when they differ)."""
+    if isinstance(a, dict) and isinstance(b, dict):
+        if set(a) != set(b):
+            return True
+        return any(compare_plain_dict(a[k], b[k]) for k in a)
+    if isinstance(a, dict) or isinstance(b, dict):
+        return True
+    if isinstance(a, (list, tuple, np.ndarray)) and isinstance(b, (list, tuple, np.ndarray)):
+        if len(a) != len(b):
+            return True
+        return any(compare_plain_dict(x, y) for x, y in zip(a, b))
+    if isinstance(a, (list, tuple, np.ndarray)) or isinstance(b, (list, tuple, np.ndarray)):
+        return True
+    return not (a == b)
